@@ -19,8 +19,8 @@ import (
 )
 
 func init() {
-	register(&Rule{ID: "R-wait-rebuild", Floor: 5, Run: ruleWaitRebuild,
-		Doc: "C10/C16/C17: the live-core list is only ever replaced by a value computed from its current contents. For every assignment to the list field: (a) no list data flowing into the new value was read before an earlier assignment to the list in the same activation (a per-sweep snapshot used for rebuilding resurrects a core that was removed earlier in the sweep: its channel never signals again, Wait never returns and cancellation cannot end it; it also drops cores spawned after the snapshot); (b) the write happens with the list's mutex held for writing and the mutex was not released between reading the data and writing it back (otherwise a core appended by a concurrent spawn in the gap is dropped: Wait returns while it still runs and its outcome is lost)."})
+	register(&Rule{ID: "R-wait-rebuild", Floor: 7, Run: ruleWaitRebuild,
+		Doc: "C10/C16/C17: the live-core list is only ever replaced by a value computed from its current contents. For every assignment to the list field: (a) no list data flowing into the new value was read before an earlier assignment to the list in the same activation (a per-sweep snapshot used for rebuilding resurrects a core that was removed earlier in the sweep: its channel never signals again, Wait never returns and cancellation cannot end it; it also drops cores spawned after the snapshot); (b) the write happens with the list's mutex held for writing and the mutex was not released between reading the data and writing it back (otherwise a core appended by a concurrent spawn in the gap is dropped: Wait returns while it still runs and its outcome is lost); (c) the new value holds every element of the current list except those identified as the finished core: the rebuilding loop is a filter, not a search — on every path through its body the visited element is appended exactly once unless an identity comparison establishes that it is the finished core, and the loop is never left by break/return (a `break` at the match drops every core listed after it: they are never waited for again)."})
 }
 
 const r2tParamBit uint8 = 8
@@ -589,10 +589,411 @@ func ruleWaitRebuild(c *Ctx) []Obligation {
 				ob.Status, ob.Detail = Discharged, fmt.Sprintf("the list data (%s%s) is read and written back without releasing %s in between, and the write holds the write lock", strings.Join(reads, ", "), via, a.guardKey)
 			}
 			obs = append(obs, ob)
+			// (c) filter, not search
+			oc := Obligation{Key: base + "keeps every other core", Pos: c.Pos(wr.node.Pos()), Nontrivial: true}
+			oc.Status, oc.Detail = a.filterVerdict(fd, wr.rhs, 0)
+			oc.Detail = fmt.Sprintf("`%s = %s`: %s", listName, rhsStr, oc.Detail)
+			obs = append(obs, oc)
 		}
 	}
 	if len(fds) == 0 {
 		obs = append(obs, Obligation{Key: "runtime|live-core list|writes", Status: Undecided, Pos: c.Pos(w.coreList.Pos()), Detail: "no assignment to the live-core list found"})
 	}
 	return obs
+}
+
+// ---------------------------------------------------------------------------
+// the rebuilt list keeps every other core (filter, not search)
+// ---------------------------------------------------------------------------
+
+type r2tFPath struct {
+	conds    []string // rendered decisions
+	dropEq   bool     // a decision establishes "this element is the finished core"
+	keepNeq  bool     // a decision establishes "this element is not the finished core"
+	unknown  bool     // a decision that is not an identity comparison was taken
+	appended int
+	foreign  string
+}
+
+// r2tFilterVerdict decides, for `list = rhs` in fd, whether the new list holds every element of
+// the current list except the ones identified as the finished core.
+func (a *r2tWaitAn) filterVerdict(fd *ast.FuncDecl, rhs ast.Expr, depth int) (Status, string) {
+	info := a.info
+	rhs = ast.Unparen(rhs)
+	if depth > 2 {
+		return Undecided, "helper chain too deep"
+	}
+	switch x := rhs.(type) {
+	case *ast.CallExpr:
+		switch {
+		case r2tIsBuiltin(info, x, "make"):
+			return Discharged, "the list is cleared (no element is kept): not a removal of one core"
+		case r2tIsBuiltin(info, x, "append") && len(x.Args) >= 1:
+			if a.isListSel(x.Args[0]) {
+				return Discharged, "append to the current list keeps every core"
+			}
+			return Undecided, "append to " + exprStr(x.Args[0])
+		}
+		if fn := CalleeOf(info, x); fn != nil && fn.Pkg() != nil && strings.HasSuffix(fn.Pkg().Path(), "slices") && fn.Name() == "DeleteFunc" && len(x.Args) == 2 {
+			if fl, ok := ast.Unparen(x.Args[1]).(*ast.FuncLit); ok && len(fl.Body.List) == 1 && len(fl.Type.Params.List) == 1 && len(fl.Type.Params.List[0].Names) == 1 {
+				if r, ok := fl.Body.List[0].(*ast.ReturnStmt); ok && len(r.Results) == 1 {
+					elem := info.Defs[fl.Type.Params.List[0].Names[0]]
+					if kind := a.identityCond(r.Results[0], elem); kind == "eq" {
+						return Discharged, "slices.DeleteFunc removes exactly the elements for which `" + exprStr(r.Results[0]) + "` holds and keeps the rest"
+					}
+				}
+			}
+			return Undecided, "slices.DeleteFunc with a predicate that is not an equality on the element"
+		}
+		if callee := a.decls[CalleeOf(info, x)]; callee != nil {
+			return a.filterOfReturn(callee, depth+1)
+		}
+		return Undecided, "new list computed by " + exprStr(x.Fun)
+	case *ast.CompositeLit:
+		return Discharged, "the list is replaced by a literal: not a removal of one core"
+	case *ast.Ident:
+		obj := r2tObj(info, x)
+		if obj == nil {
+			return Undecided, "unresolved " + x.Name
+		}
+		return a.filterOfVar(fd, obj, depth)
+	}
+	return Undecided, "new list is " + exprStr(rhs)
+}
+
+func (a *r2tWaitAn) filterOfReturn(fd *ast.FuncDecl, depth int) (Status, string) {
+	var rets []ast.Expr
+	ast.Inspect(fd.Body, func(n ast.Node) bool {
+		if _, ok := n.(*ast.FuncLit); ok {
+			return false
+		}
+		if r, ok := n.(*ast.ReturnStmt); ok && len(r.Results) == 1 {
+			rets = append(rets, r.Results[0])
+		}
+		return true
+	})
+	if len(rets) != 1 {
+		return Undecided, fmt.Sprintf("helper %s has %d single-value returns", fd.Name.Name, len(rets))
+	}
+	st, why := a.filterVerdict(fd, rets[0], depth)
+	return st, "helper " + fd.Name.Name + ": " + why
+}
+
+func (a *r2tWaitAn) filterOfVar(fd *ast.FuncDecl, v types.Object, depth int) (Status, string) {
+	info := a.info
+	type asg struct {
+		st    *ast.AssignStmt
+		rhs   ast.Expr
+		loops []*ast.RangeStmt
+	}
+	var asgs []asg
+	var stack []ast.Node
+	ast.Inspect(fd.Body, func(n ast.Node) bool {
+		if n == nil {
+			stack = stack[:len(stack)-1]
+			return true
+		}
+		stack = append(stack, n)
+		as, ok := n.(*ast.AssignStmt)
+		if !ok {
+			return true
+		}
+		for i, l := range as.Lhs {
+			if r2tObj(info, l) != v {
+				continue
+			}
+			var rhs ast.Expr
+			if len(as.Rhs) == len(as.Lhs) {
+				rhs = as.Rhs[i]
+			}
+			x := asg{st: as, rhs: rhs}
+			for _, s := range stack {
+				if rs, ok := s.(*ast.RangeStmt); ok {
+					x.loops = append(x.loops, rs)
+				}
+			}
+			asgs = append(asgs, x)
+		}
+		return true
+	})
+	if len(asgs) == 0 {
+		return Undecided, v.Name() + " is never assigned in " + fd.Name.Name
+	}
+	var loop *ast.RangeStmt
+	var inits []asg
+	for _, x := range asgs {
+		call, isCall := ast.Unparen(x.rhs).(*ast.CallExpr)
+		if isCall && r2tIsBuiltin(info, call, "append") && len(call.Args) > 0 && r2tObj(info, call.Args[0]) == v {
+			if len(x.loops) == 0 {
+				return Undecided, v.Name() + " is appended to outside a loop"
+			}
+			in := x.loops[len(x.loops)-1]
+			if loop != nil && loop != in {
+				return Undecided, v.Name() + " is filled by more than one loop"
+			}
+			loop = in
+			continue
+		}
+		inits = append(inits, x)
+	}
+	if loop == nil {
+		// a single plain definition: look through it
+		if len(inits) == 1 && inits[0].rhs != nil {
+			return a.filterVerdict(fd, inits[0].rhs, depth+1)
+		}
+		return Undecided, v.Name() + " is not built by a loop"
+	}
+	for _, x := range inits {
+		ok := false
+		if x.rhs != nil {
+			switch r := ast.Unparen(x.rhs).(type) {
+			case *ast.CallExpr:
+				ok = r2tIsBuiltin(info, r, "make")
+			case *ast.CompositeLit:
+				ok = len(r.Elts) == 0
+			case *ast.Ident:
+				ok = mbIsNil(info, r)
+			}
+		}
+		if !ok {
+			return Undecided, v.Name() + " is also assigned `" + exprStr(x.rhs) + "`"
+		}
+		for _, l := range x.loops {
+			if l == loop {
+				return Violated, fmt.Sprintf("%s is re-initialised inside the loop that fills it (%s): the elements kept so far are thrown away", v.Name(), a.c.Pos(x.st.Pos()))
+			}
+		}
+	}
+	// the loop must run over list data
+	srcT := a.taintless(loop.X)
+	if !srcT {
+		return Undecided, "the filter loop ranges over " + exprStr(loop.X) + ", which is not the core list"
+	}
+	var elem, idx types.Object
+	if loop.Value != nil {
+		elem = r2tObj(info, loop.Value)
+	}
+	if loop.Key != nil {
+		idx = r2tObj(info, loop.Key)
+	}
+	isElem := func(e ast.Expr) bool {
+		e = ast.Unparen(e)
+		if elem != nil && r2tObj(info, e) == elem {
+			return true
+		}
+		if ix, ok := e.(*ast.IndexExpr); ok && idx != nil && r2tObj(info, ix.Index) == idx && exprStr(ix.X) == exprStr(loop.X) {
+			return true
+		}
+		return false
+	}
+	elemOrIdx := elem
+	var paths []r2tFPath
+	var bad []string
+	undecided := ""
+	var walk func(list []ast.Stmt, p r2tFPath) (cont []r2tFPath)
+	finish := func(p r2tFPath, kind string, pos token.Pos) {
+		switch kind {
+		case "break", "return", "jump":
+			bad = append(bad, fmt.Sprintf("the loop is left by `%s` at %s under [%s]: it is a filter, not a search — every core listed after that element is missing from the new list (those cores are never waited for again; their interrupts are lost)", kind, a.c.Pos(pos), strings.Join(p.conds, " && ")))
+		default:
+			paths = append(paths, p)
+		}
+	}
+	containsCtl := func(n ast.Node) bool {
+		found := false
+		ast.Inspect(n, func(m ast.Node) bool {
+			switch y := m.(type) {
+			case *ast.FuncLit:
+				return false
+			case *ast.BranchStmt, *ast.ReturnStmt:
+				found = true
+			case *ast.AssignStmt:
+				for _, l := range y.Lhs {
+					if r2tObj(info, l) == v {
+						found = true
+					}
+				}
+			}
+			return true
+		})
+		return found
+	}
+	walk = func(list []ast.Stmt, p r2tFPath) []r2tFPath {
+		cur := []r2tFPath{p}
+		for _, st := range list {
+			if len(cur) == 0 {
+				return nil
+			}
+			var next []r2tFPath
+			for _, q := range cur {
+				switch s := st.(type) {
+				case *ast.IfStmt:
+					if s.Init != nil && containsCtl(s.Init) {
+						undecided = "assignment to the new list in an if-initialiser"
+					}
+					kind := a.identityCond(s.Cond, elemOrIdx, idx)
+					t, e := q, q
+					t.conds = append(append([]string(nil), q.conds...), exprStr(s.Cond))
+					e.conds = append(append([]string(nil), q.conds...), "!("+exprStr(s.Cond)+")")
+					switch kind {
+					case "eq":
+						t.dropEq, e.keepNeq = true, true
+					case "neq":
+						t.keepNeq, e.dropEq = true, true
+					default:
+						t.unknown, e.unknown = true, true
+					}
+					next = append(next, walk(s.Body.List, t)...)
+					switch el := s.Else.(type) {
+					case nil:
+						next = append(next, e)
+					case *ast.BlockStmt:
+						next = append(next, walk(el.List, e)...)
+					default:
+						next = append(next, walk([]ast.Stmt{el}, e)...)
+					}
+				case *ast.BlockStmt:
+					next = append(next, walk(s.List, q)...)
+				case *ast.BranchStmt:
+					switch {
+					case s.Label != nil || s.Tok == token.GOTO:
+						finish(q, "jump", s.Pos())
+					case s.Tok == token.CONTINUE:
+						finish(q, "next", s.Pos())
+					case s.Tok == token.BREAK:
+						finish(q, "break", s.Pos())
+					default:
+						undecided = "fallthrough in the filter loop"
+					}
+				case *ast.ReturnStmt:
+					finish(q, "return", s.Pos())
+				case *ast.AssignStmt:
+					hit := false
+					for i, l := range s.Lhs {
+						if r2tObj(info, l) != v {
+							continue
+						}
+						hit = true
+						call, ok := ast.Unparen(s.Rhs[i]).(*ast.CallExpr)
+						if !ok || !r2tIsBuiltin(info, call, "append") {
+							undecided = "the new list is assigned `" + exprStr(s.Rhs[i]) + "` inside the loop"
+							continue
+						}
+						for _, arg := range call.Args[1:] {
+							if isElem(arg) {
+								q.appended++
+							} else {
+								q.foreign = exprStr(arg)
+							}
+						}
+					}
+					_ = hit
+					next = append(next, q)
+				case *ast.ExprStmt:
+					if IsPanicCall(info, s) {
+						continue
+					}
+					next = append(next, q)
+				default:
+					if containsCtl(st) {
+						undecided = "nested control flow in the filter loop at " + a.c.Pos(st.Pos())
+					}
+					next = append(next, q)
+				}
+			}
+			cur = next
+		}
+		return cur
+	}
+	for _, p := range walk(loop.Body.List, r2tFPath{}) {
+		finish(p, "next", loop.Body.Rbrace)
+	}
+	if undecided != "" {
+		return Undecided, undecided
+	}
+	drops := 0
+	for _, p := range paths {
+		cs := strings.Join(p.conds, " && ")
+		if cs == "" {
+			cs = "unconditionally"
+		}
+		switch {
+		case p.foreign != "":
+			bad = append(bad, fmt.Sprintf("under [%s] `%s` is appended instead of the visited element", cs, p.foreign))
+		case p.appended > 1:
+			bad = append(bad, fmt.Sprintf("under [%s] the visited element is appended %d times", cs, p.appended))
+		case p.appended == 1 && p.dropEq:
+			bad = append(bad, fmt.Sprintf("under [%s] the element identified as the finished core is kept", cs))
+		case p.appended == 0 && p.dropEq && !p.unknown:
+			drops++
+		case p.appended == 0 && p.dropEq:
+			drops++
+		case p.appended == 0 && !p.dropEq:
+			if p.unknown {
+				return Undecided, fmt.Sprintf("an element is dropped under [%s], which is not understood as an identity comparison", cs)
+			}
+			bad = append(bad, fmt.Sprintf("under [%s] the visited element is not appended although nothing identifies it as the finished core: it is dropped from the list", cs))
+		}
+	}
+	if len(bad) > 0 {
+		return Violated, strings.Join(bad, "; ")
+	}
+	if drops == 0 {
+		return Violated, "no path of the filter loop drops the finished core: the list never shrinks and Wait never sees it empty"
+	}
+	return Discharged, fmt.Sprintf("filter loop over %s: %d path(s), the visited element is appended exactly once on every path except the %d on which it equals the finished core; the loop is only left at its end", exprStr(loop.X), len(paths), drops)
+}
+
+// taintless: the ranged expression is the list itself or a []Core local (snapshot freshness is key (a)'s business).
+func (a *r2tWaitAn) taintless(e ast.Expr) bool {
+	if a.isListSel(e) {
+		return true
+	}
+	t := a.info.TypeOf(e)
+	return t != nil && types.Identical(t, a.coreList.Type())
+}
+
+// identityCond: "eq" for `elem.F == other.F` (or `== other`), "neq" for `!=`, "" otherwise.
+// One side must select a field of the visited element, the other must not mention it.
+func (a *r2tWaitAn) identityCond(e ast.Expr, elem types.Object, idx ...types.Object) string {
+	be, ok := ast.Unparen(e).(*ast.BinaryExpr)
+	if !ok || (be.Op != token.EQL && be.Op != token.NEQ) {
+		return ""
+	}
+	mentions := func(x ast.Expr) bool {
+		found := false
+		ast.Inspect(x, func(n ast.Node) bool {
+			if id, ok := n.(*ast.Ident); ok {
+				if a.info.Uses[id] == elem {
+					found = true
+				}
+				for _, ix := range idx {
+					if ix != nil && a.info.Uses[id] == ix {
+						found = true
+					}
+				}
+			}
+			return true
+		})
+		return found
+	}
+	isField := func(x ast.Expr) bool {
+		s, ok := ast.Unparen(x).(*ast.SelectorExpr)
+		if !ok {
+			return false
+		}
+		v, ok := a.info.Uses[s.Sel].(*types.Var)
+		return ok && v.IsField() && mentions(s.X) && a.carries(a.info.TypeOf(s.X), 0)
+	}
+	l, r := be.X, be.Y
+	if !isField(l) {
+		l, r = r, l
+	}
+	if !isField(l) || mentions(r) {
+		return ""
+	}
+	if be.Op == token.EQL {
+		return "eq"
+	}
+	return "neq"
 }
